@@ -40,9 +40,6 @@ RC.append(("np.linalg.pinv of a complex matrix: the rule uses plain transposes w
 RC.append(("np.linalg.slogdet of a complex matrix: the cotangent of the (complex, non-constant) sign output is ignored", [("C09", "slogdet", "rev", "wrong-value", "arg_cplx:complex,use:~(\\[0\\]|tuple)")]))
 RC.append(("np.linalg.solve with broadcasting batch dimensions (see C01 entry), complex operands",
            [("C09", "solve", "rev", "wrong-shape", "batch_broadcast:True"), ("C09", "solve", "rev", "wrong-value", "batch_broadcast:True,rhs_vector:True")]))
-RC.append(("real FFT family (rfft/irfft/rfft2/irfft2/rfftn/irfftn): norm='backward' / 'forward' (as strings) take the 'ortho' branch of the rule's "
-           "normalisation factor: silently wrong gradients",
-           [("C09", p, "rev", "wrong-value", "norm:~(backward|forward)") for p in ("rfft", "irfft", "rfft2", "irfft2", "rfftn", "irfftn")]))
 RC.append(("rfftn / irfftn with a repeated axis: accepted (unlike the complex transforms) and differentiated with factors for distinct axes",
            [("C09", p, "rev", "wrong-value", "axes:repeated") for p in ("rfftn", "irfftn")]))
 RC.append(("np.full((), x) with a (1,)-shaped fill value (see C05 entry)", [("C09", "full", "rev", "wrong-shape", "fill:arr1")]))
@@ -50,8 +47,6 @@ RC.append(("np.array(complex_value, dtype=float): NumPy drops the imaginary part
            [("C09", "array", "rev", "wrong-shape", "arg_cplx:complex,form:~.*dtype.*")]))
 RC.append(("vstack/hstack/column_stack/dstack of a real traced array with a complex constant: gradient w.r.t. the real array is complex",
            [("C09", p, "rev", "wrong-shape", "mixed:True,arg_cplx:real") for p in ("vstack", "hstack", "column_stack", "dstack", "row_stack")]))
-RC.append(("real FFTs called with n= / s= by keyword: the rule's argument parser names that parameter differently, so an odd or cropped length is not seen (no NotImplementedError, wrong factors)",
-           [("C09", "rfft", "rev", "wrong-value", "style:kw,n:~(odd|short|long)")]))
 RC.append(("np.select of 0-d choices with mixed real/complex members: the re-implementation rebuilds the result from a real-typed list and loses the imaginary part",
            [("C09", "select", "rev", "wrong-shape", "rank:0,ops_cplx:~rc.*"), ("C09", "select", "fwd", "wrong-shape", "rank:0,ops_cplx:~rc.*")]))
 RC.append(("np.diff with n >= 2 along an axis shorter than n+1 (NumPy returns an empty array): the VJP rebuilds a gradient that is longer than the argument",
